@@ -743,4 +743,14 @@ fire('cache10-save-skipped-when-file-looks-fresh', ['C17', 'C16'], ['CACHE-10'],
 fire('tok12-comment-to-end-of-line', ['C01', 'C09'], ['TOK-12'], 'a comment inside an f-string expression goes to the prefix and the scan jumps to the end of the physical line (rt11-C01, reduced)',
      (TOK, "                    yield PythonToken(ERRORTOKEN, initial, spos, prefix)\n                    pos = start + 1\n", "                    if fstring_stack[-1].allow_multiline():\n                        pos = len(line.rstrip('\\r\\n'))\n                        additional_prefix = prefix + token\n                    else:\n                        yield PythonToken(ERRORTOKEN, initial, spos, prefix)\n                        pos = start + 1\n"))
 
+fire('tok13-continuation-line-stays-new', ['C02', 'C09'], ['TOK-13'], 'a line holding only a continuation backslash goes through the INDENT / DEDENT logic but stays "new" (rt12-C02)',
+     (TOK, "            if new_line and initial not in '\\r\\n#' and (initial != '\\\\' or pseudomatch is None):\n                new_line = False\n", "            if new_line and initial not in '\\r\\n#':\n                if initial != '\\\\' or pseudomatch is None:\n                    new_line = False\n"))
+silent('s-tok13-flag-reset-after-decision', ['C02', 'C09'], 'the line-start flag is reset at the end of the block that decides the indentation',
+       (TOK, "            if new_line and initial not in '\\r\\n#' and (initial != '\\\\' or pseudomatch is None):\n                new_line = False\n                if paren_level == 0 and not fstring_stack:\n                    indent_start = start\n                    if indent_start > indents[-1]:\n                        yield PythonToken(INDENT, '', spos, '')\n                        indents.append(indent_start)\n                    yield from dedent_if_necessary(indent_start)\n",
+        "            if new_line and initial not in '\\r\\n#' and (initial != '\\\\' or pseudomatch is None):\n                if paren_level == 0 and not fstring_stack:\n                    indent_start = start\n                    if indent_start > indents[-1]:\n                        yield PythonToken(INDENT, '', spos, '')\n                        indents.append(indent_start)\n                    yield from dedent_if_necessary(indent_start)\n                new_line = False\n"))
+fire('gr8a-import-search-narrow-table', ['C14'], ['GR-8a'], 'iter_imports scans with a narrower container table that omits async_stmt (rt12-C14, reduced)',
+     (PYTREE, "        return self._search_in_scope('import_name', 'import_from')\n\n    def _search_in_scope(self, *names):\n        def scan(children):\n            for element in children:\n                if element.type in names:\n                    yield element\n                if element.type in _FUNC_CONTAINERS:\n",
+      "        return self._search_in_scope('import_name', 'import_from', containers=_IMPORT_CONTAINERS)\n\n    def _search_in_scope(self, *names, containers=None):\n        containers = _FUNC_CONTAINERS if containers is None else containers\n\n        def scan(children):\n            for element in children:\n                if element.type in names:\n                    yield element\n                if element.type in containers:\n"),
+     (PYTREE, "_RETURN_STMT_CONTAINERS = set(['suite', 'simple_stmt']) | _FLOW_CONTAINERS\n", "_RETURN_STMT_CONTAINERS = set(['suite', 'simple_stmt']) | _FLOW_CONTAINERS\n_IMPORT_CONTAINERS = set(['suite', 'simple_stmt', 'if_stmt', 'while_stmt', 'for_stmt', 'try_stmt', 'with_stmt'])\n"))
+
 VARIANTS = [v for v in VARIANTS if v is not None]
